@@ -199,6 +199,19 @@ def _median(E, env, ob, med, N, numeric):
            'even count: median-x lies between the two middle values of the sorted list')
 
 
+def _axiom_cauchy_schwarz(E, n, s1, s2):
+    """n * sum(x^2) >= (sum x)^2 for n real numbers (Cauchy-Schwarz): a mathematical fact about the ghost folds that needs an
+    induction with a quantified invariant and is not mechanised; stated as an axiom instance at the loop exit so that both the
+    ``math.sqrt`` domain error and the rounding guard ``if sumsq < 0`` are seen as unreachable over the reals"""
+    E.assumptions_used.add('the variance of real data is non-negative (Cauchy-Schwarz: n * sum(x^2) >= (sum x)^2), mathematical fact, '
+                           'not mechanised; floating-point rounding is outside the claim')
+    N = z3.ToReal(E.as_z3_int(n))
+    return VB(N * E.as_z3_real(s2) >= E.as_z3_real(s1) * E.as_z3_real(s1))
+
+
+from pyvc import spec as _spec  # noqa: E402
+_spec.register('axiom_cauchy_schwarz', _axiom_cauchy_schwarz)
+
 contract(SV + '.statistics', variant='attr', params=dict(self=NoneV(), name=Const(NAME), key=Const('total-' + NAME)),
          pre_hook=_state(False), exit_hook=_exit, numeric_split=True,
          invariants={1: dict(header='for item in items', inv=INV,
@@ -207,6 +220,7 @@ contract(SV + '.statistics', variant='attr', params=dict(self=NoneV(), name=Cons
                              havoc_heap=['values', 'svalues'],
                              types={'item': 'opaque', 's': 'opaque', 'sum': 'real', 'sumsq': 'real', 'min': 'real?', 'max': 'real?',
                                     'smin': 'opaque?', 'smax': 'opaque?'},
+                             exit_hints=['axiom_cauchy_schwarz(gN, gS1, gS2)'],
                              on_iteration=_loop_iter(False))})
 STATS = [SV + '.statistics#attr']
 
